@@ -10,6 +10,7 @@ package main
 
 import (
 	"go/ast"
+	"go/token"
 	"go/types"
 	"sort"
 	"strings"
@@ -67,6 +68,51 @@ func c15BlankClasses(r *Run) {
 				return true
 			}
 			if rs, ok := is.Body.List[0].(*ast.ReturnStmt); !ok || len(rs.Results) != 0 {
+				return true
+			}
+			// `if !onlyBlanks(x) { return }`: the class is the byte predicate under which the helper
+			// returns false (the predicate extracted into a function of the package)
+			if u, ok := ast.Unparen(is.Cond).(*ast.UnaryExpr); ok && u.Op == token.NOT {
+				if hc, ok := ast.Unparen(u.X).(*ast.CallExpr); ok {
+					if hf := callee(info, hc); hf != nil {
+						for _, h := range r.P.Funcs("internal/compiler") {
+							if h.Obj != hf || r.P.isTestFile(h.File) {
+								continue
+							}
+							hinfo := h.Pkg.TypesInfo
+							ast.Inspect(h.Decl.Body, func(q ast.Node) bool {
+								his, ok := q.(*ast.IfStmt)
+								if !ok || len(his.Body.List) != 1 {
+									return true
+								}
+								rs, ok := his.Body.List[0].(*ast.ReturnStmt)
+								if !ok || len(rs.Results) != 1 {
+									return true
+								}
+								if tv, ok := hinfo.Types[rs.Results[0]]; !ok || tv.Value == nil || tv.Value.String() != "false" {
+									return true
+								}
+								var hv types.Object
+								ast.Inspect(his.Cond, func(z ast.Node) bool {
+									if id, ok := z.(*ast.Ident); ok {
+										if o, ok := hinfo.Uses[id].(*types.Var); ok {
+											if b, ok := o.Type().Underlying().(*types.Basic); ok && b.Kind() == types.Uint8 {
+												hv = o
+											}
+										}
+									}
+									return true
+								})
+								if hv != nil {
+									if set, ok := predSet(hinfo, his.Cond, isIdentOf(hinfo, hv), 0, 255); ok {
+										classes = append(classes, cls{set, his.Cond})
+									}
+								}
+								return true
+							})
+						}
+					}
+				}
 				return true
 			}
 			// a pure predicate over one byte-typed local
